@@ -99,7 +99,15 @@ def c03(ctx, t0):
     res = []
     if want(ctx, 'snapshot'):
         res.append(ctx.run_child('snapshot', [hx, 'c03'], T(ctx, 300, 1200)))
-    floors = {'planted_auth_probes': (counters(res, 'planted_auth_probes'), 10), 'control_names': (counters(res, 'control_names'), 5)}
+    if want(ctx, 'syscalls'):
+        import sc_checks
+        res.append(sc_checks.c03_syscall_stage(ctx))
+    if want(ctx, 'frontends'):
+        ctx.build_agent()
+        res.append(ctx.run_child('frontends', [hx, 'c03fe'], T(ctx, 600, 1800)))
+    floors = {'planted_auth_probes': (counters(res, 'planted_auth_probes'), 10), 'control_names': (counters(res, 'control_names'), 5),
+              'delimited_calls': (counters(res, 'delimited_calls'), 150), 'path_syscalls_inspected': (counters(res, 'path_syscalls_inspected'), 200),
+              'frontend_probes:sasl': (counters(res, 'frontend_probes:sasl'), 50), 'frontend_probes:ldap': (counters(res, 'frontend_probes:ldap'), 40), 'management_probes': (counters(res, 'management_probes'), 100)}
     return finish(ctx, 'exploration', res, COMMON_ASSUME + ['the monitor applies the grammar ^[A-Za-z0-9][-_.@A-Za-z0-9]*$ itself (go/ref NameValid)'], floors, t0)
 
 
